@@ -186,6 +186,27 @@ def cases(tier):
                     continue
                 for q, h in modes[:4]:
                     out.append({"frames": frames, "damage": {i: mask}, "q": q, "handler": h})
+    # frames whose payload contains sync-looking bytes (D3 00 .., B5 62, '$'): damage must not
+    # make the reader re-synchronise inside the damaged frame
+    fs = items.frames()
+    sync = [pinned.frame(b"\xfa\x00\xd3\x00\x02\xb5\x62\x24\x47"),
+            pinned.frame(b"\xfa\x10\x00\xd3\x00\x13\x3e\xd0\xd3\x00\x00\x11")]
+    for frames in ([sync[0], a, c19], [a, sync[1], b], [sync[1], sync[0]]):
+        for i, fr in enumerate(frames):
+            if fr not in sync:
+                continue
+            nb = (len(fr) - 3) * 8
+            for kind, mask in patterns(nb):
+                if kind not in ("bit", "adj", "ends"):
+                    continue
+                for q, h in modes[:4]:
+                    out.append({"frames": frames, "damage": {i: mask}, "q": q, "handler": h})
+    # deep histories: a long run of damaged frames between two good ones
+    for n in ((1200,) if tier == "quick" else (1200, 5000)):
+        frames = [a] + [b] * n + [c19]
+        dmg = {i: 1 << ((i * 7) % ((len(b) - 3) * 8)) for i in range(1, n + 1)}
+        for q, h in modes[:3]:
+            out.append({"frames": frames, "damage": dmg, "q": q, "handler": h})
     return out
 
 
